@@ -19,7 +19,7 @@ Next == UNCHANGED l
 \* a call on well-formed input must not crash (explicit, documented refusals are
 \* recorded as op-specific "refused" fields instead of "exc")
 NoCrash == ~Has("exc")
-\* op "call": one call from the refusal table of API.tla with the class of the exception raised ("none" if accepted).
+\* op "refusal": one call from the refusal table of API.tla with the class of the exception raised ("none" if accepted).
 \* Model drift, never a verdict (see API.tla).
-Drift_Refusal == Rec.op = "call" => (Rec.raised = Refusal(Rec) /\ RefusalClean(Rec))
+Drift_Refusal == Rec.op = "refusal" => (Rec.raised = Refusal(Rec) /\ RefusalClean(Rec))
 =============================================================================
